@@ -1087,7 +1087,7 @@ def eval_obs(value, zmodel):
     if isinstance(value, (list, tuple)):
         return [eval_obs(v, zmodel) for v in value]
     if isinstance(value, dict):
-        return {k: eval_obs(v, zmodel) for k, v in value.items()}
+        return {str(k): eval_obs(v, zmodel) for k, v in value.items()}
     return _plain(value)
 
 
